@@ -135,6 +135,13 @@ def rule_config(ctx):
     ctx.check("C04.config", u is not None and "self._profile.username" in u, w, "username=" + str(u), "the login must present the profile's account", "username <- profile")
     ctx.check("C04.config", p is not None and "getArg('passive')" in p.replace('"', "'"), w, "passive=" + str(p), "the login must present the passive flag of the auth event", "passive <- auth event")
     ctx.check("C04.config", pn is not None and "config.pushname" in pn and "DEFAULT_PUSHNAME" in pn, w, "pushname=" + str(pn), "the login must present the configured push name (default only when unset)", "pushname <- config or default")
+    # the config the worker gets is the object built in THIS call (from this event's passive flag and the current profile),
+    # not one kept from an earlier login
+    holder = [n for n in ast.walk(fn) if isinstance(n, ast.Assign) and any(x is cc[0] for x in ast.walk(n.value))]
+    fresh = len(holder) == 1 and holder[0].value is cc[0] and isinstance(holder[0].targets[0], ast.Name) and len(locals_.get(holder[0].targets[0].id, [])) == 1
+    ctx.check("C04.config", fresh, w, holder[0] if holder else cc[0],
+              "the client description must be built afresh for every login: here it is `%s`, so a later login presents the account / passive flag of an earlier one" % (unparse(holder[0].value)[:60] if holder else "?"),
+              "built in this call")
     # the worker gets this config, the local key pair and the stored server key
     wk = [c for c in ast.walk(fn) if isinstance(c, ast.Call) and unparse(c.func) == "WANoiseProtocolHandshakeWorker"]
     ok = len(wk) == 1 and [unparse(a) for a in wk[0].args][:5] == ["self._wa_noiseprotocol", "self._stream", "client_config", "local_static", "remote_static"] and unparse(wk[0].args[5]) == "self.on_handshake_finished"
@@ -323,6 +330,7 @@ def run(ctx):
     ctx.rule("C04.finish", "finish callback on every path; failure reported upward", floor=4)
     ctx.rule("C04.rs", "changed server key persisted before the flush", floor=3)
     ctx.rule("C04.flush", "enqueue-before-test, single locked drain, stream event wiring", floor=6)
+    ctx.rule("C04.intact", "server->client stanzas decoded completely (C02.alts adopted: all forms, full inflate)", floor=20)
     ctx.rule("C04.order", "frames intact and in sending order client->server: C11's lock-set rules adopted", floor=8)
     ctx.rule("C04.attempt", "per-attempt resources / reset", floor=3)
     ctx.assume("consonance calls the state callback and the stream events synchronously; the Noise handshake itself and chunkings (C05) are not decided here")
@@ -332,6 +340,9 @@ def run(ctx):
     ctx.guarded("C04.rs", rule_rs, ctx)
     ctx.guarded("C04.flush", rule_flush, ctx)
     ctx.guarded("C04.attempt", rule_attempt, ctx)
+    # server->client: a compressed stanza is inflated completely, every alternative form is accepted (C02.alts), adopted
+    from . import c02
+    ctx.adopt_from("C02", [(c02.rule_alts, (c02.load_ref("format.json"),))], {"C02.alts": "C04.intact"})
     # 'stanzas arrive intact and in sending order' on the client->server side is the lock-set argument of C11, adopted
     from . import c11
     ctx.adopt_from("C11", [(c11.rule_hoh, ()), (c11.rule_enc, ()), (c11.rule_once_frame, ()), (c11.rule_disp, ())],
